@@ -23,6 +23,13 @@ FLAGS = re.UNICODE | re.DOTALL
 
 PY_DIALECTS = ['perl', 'portable', 'grep']
 
+# literal text that would mean something else if it reached the output
+# expression unescaped
+REGEX_LOOKALIKES = ['{2}', '{1}', '{1,3}', '{0}', 'a{2}', '(a)', '(', ')',
+                    '[ab]', '[', '\\d', '\\w+', '.*', '.', 'a|b', '|', '^a$',
+                    '$', 'x+', 'y?', '*', '(?i)', '\\1', '[^a]', 'a-z',
+                    '{', '}', '#', '&&', '~', "'", '"']
+
 FRAG_CLASSES = ['lower', 'upper', 'letters', 'digits', 'hex', 'alnum',
                 'nonascii_letters', 'nonascii_decimals', 'digit_likes',
                 'letter_numbers', 'punctsub', 'ws', 'controls', 'symbols',
@@ -49,7 +56,8 @@ def fragment(draw, allow):
         alpha = None
         lit = draw(st.one_of(T.a_text(1, 4),
                              st.sampled_from(['-', '.', '_', ':', '/', '@',
-                                              ' ', '--', '^', ']', '\\'])))
+                                              ' ', '--', '^', ']', '\\']),
+                             st.sampled_from(REGEX_LOOKALIKES)))
         return {'lit': lit}
     else:
         alpha = T.ALL_CLASSES[cls]
